@@ -26,14 +26,14 @@ QUICK_S = 30
 THOROUGH_S = 420
 BATCH = 4
 RULE = ('one evaluation = one seeded run: (hist) a single-client history of 20-200 FanoutCache calls (key-addressed operations, '
-        'length, volume, clear, expire, evict, cull, statistics, iteration both ways, check, reopen) through 1-2 handles in different '
+        'length, volume, clear, expire, evict, cull, statistics, iteration both ways, check, reopen of a handle by a fresh FanoutCache or by its own pickle round trip) through 1-2 handles in different '
         'simulated processes x shard count in {1,2,3,8,13} x settings, compared call by call with one reference model per shard '
         '(routing by an independent re-implementation of the released hash) incl. per-shard lazy-cull legality and the divided size '
         'limit; (routing) Disk.hash / JSONDisk.hash of ~140 keys x pickle protocols 0-5 compared with the table recorded from the '
         'pinned release and across two fresh interpreters with different PYTHONHASHSEED; (pairs) numerically equal int/float keys '
         'must map to one shard; non-trivial = at least 10 calls / at least one key compared; distinct = SHA-256 of the case')
 ASSUMPTIONS = ['histories use at most one member of each numerically-equal int/float pair (their split routing is known finding F11 and is probed separately)']
-PROBES = ('cull_expired', 'reopen', 'routing_keys_compared', 'xproc_runs', 'two_handles')
+PROBES = ('cull_expired', 'reopen', 'unpickled_handle', 'routing_keys_compared', 'xproc_runs', 'two_handles')
 TECHNIQUE = 'deterministic simulation (virtual clock, simulated processes) + per-shard model-based checking; routing compared with a recorded table and across fresh interpreters with different hash seeds'
 LEVEL_TEXT = ('seeded exploration of call histories against per-shard reference models under the simulator, plus direct comparison '
               'of the routing function with a recorded table and across interpreters (the only nondeterminism the routing can depend on '
@@ -101,6 +101,12 @@ def gen_case(seed, tier):
         for op in prog:
             if op['op'] not in ('advance', 'reopen'):
                 op['proc'] = rng.randrange(nproc)
+    for op in prog:
+        if op['op'] == 'reopen':
+            # a handle is replaced by a fresh FanoutCache(directory, shards=n) or by its own pickle round trip (what
+            # multiprocessing hands to a worker): both must route every key as before
+            op['how'] = rng.choice(('open', 'pickle'))
+            op['proc'] = rng.randrange(nproc)
     if rng.random() < 0.5:
         prog.append({'op': 'checkall'})
     cfg = {'kind': 'hist', 'settings': settings, 'shards': shards, 'nproc': nproc,
@@ -148,9 +154,20 @@ def run_hist(case):
                 sim.advance(op['dt'])
                 continue
             if name == 'reopen':
-                handles[0].close()
-                handles[0] = dc.FanoutCache(path, shards=shards)
-                for sh in handles[0]._shards:
+                hi = op.get('proc', 0) % len(handles)
+                if op.get('how') == 'pickle':
+                    import pickle
+                    blob = pickle.dumps(handles[hi])
+                    handles[hi].close()
+                    handles[hi] = pickle.loads(blob)
+                    probes['unpickled_handle'] = probes.get('unpickled_handle', 0) + 1
+                    if len(handles[hi]._shards) != shards:
+                        violations.append({'rule': 'C13/shard-count-changed', 'sig': 'pickle',
+                                           'detail': 'unpickled handle has %d shards, the cache has %d' % (len(handles[hi]._shards), shards)})
+                else:
+                    handles[hi].close()
+                    handles[hi] = dc.FanoutCache(path, shards=shards)
+                for sh in handles[hi]._shards:
                     if sh.size_limit != total_limit / shards:
                         violations.append({'rule': 'C13/size-limit-not-divided', 'sig': 'reopen',
                                            'detail': 'after reopen shard size_limit %r, expected %r' % (sh.size_limit, total_limit / shards)})
